@@ -132,6 +132,26 @@ Proof.
 Qed.
 Print Assumptions C10_socks_regress_spin.
 
+(* ---- X11 setup block (x11.py SSHX11ClientForwarder) ---- *)
+
+(* x11_progress: every handler call moves on to the next handler (prefix -> protocol name -> cookie -> none),
+   whatever the 16-bit lengths in the setup block are (0 included), right or wrong cookie. *)
+Theorem C10_x11_progress : forall remote local s s', xh s <> XNone -> x_iter remote local s = Some s' ->
+  xrank (xh s') = xrank (xh s) - 1.
+Proof. exact x_iter_progress. Qed.
+Print Assumptions C10_x11_progress.
+
+(* hence data_received never runs out of fuel, takes at most 4 passes of its loop for a chunk, and over a whole
+   connection at most 3 handler calls plus one pass per chunk. *)
+Theorem C10_x11_linear : forall remote local s chunk,
+  exists s' it, x_feed remote local s chunk = Some (s', it) /\
+                xrank (xh s') <= xrank (xh s) /\ 0 <= it <= (xrank (xh s) - xrank (xh s')) + 1.
+Proof.
+  intros remote local s chunk. destruct (x_feed_total remote local s chunk) as (s' & it & H & _).
+  exists s', it. split; [exact H|]. eapply x_feed_rank; eauto.
+Qed.
+Print Assumptions C10_x11_linear.
+
 (* ---- identification string / banner (connection.py _recv_version) ---- *)
 
 (* banner_bounded: for any limits L = max line length > 0, N = max banner lines >= 0, either role and ANY
@@ -254,4 +274,9 @@ Proof. vm_compute. reflexivity. Qed.
 Example ex_copy : copy_data 10 false 600000 0 0 0 = CDone 3 600000.
 Proof. vm_compute. reflexivity. Qed.
 Example ex_copy_same : copy_data 10 true 600000 0 0 262144 = CDone 0 0.
+Proof. vm_compute. reflexivity. Qed.
+Example ex_x11_bad_cookie :
+  x_run [1; 2] [9; 9] x11_init [[66; 0; 0; 11; 0; 0; 0; 0; 0; 0; 0; 0; 7]] 0
+  = Some (mkX XNone 0 [] true [66; 0; 0; 11; 0; 0; 0; 0; 0; 0; 0; 0] [] [] 0 0 []
+              (x_failure true) true, 3).
 Proof. vm_compute. reflexivity. Qed.
